@@ -45,7 +45,7 @@ func runC08(c *core.Ctx) {
 			}
 		},
 	})
-	c.CasesPar("limits", c.N(1000, 26000), 4, func(k *core.Case) {
+	c.CasesPar("limits", c.N(1000, 80000), 4, func(k *core.Case) {
 		r := k.R
 		cfg := genWriterCfg(r, "")
 		cfg.BatchSize = core.Pick(r, 1, 2, 3, 7, 100, 0)
@@ -122,7 +122,7 @@ func runC08(c *core.Ctx) {
 		checkC08Limits(k, run, boundaryHit)
 	})
 
-	c.CasesPar("flush", c.N(200, 4000), 4, func(k *core.Case) {
+	c.CasesPar("flush", c.N(200, 12000), 4, func(k *core.Case) {
 		r := k.R
 		variant := core.Pick(r, "a-size-trigger", "b-timer-trigger", "c-quiescence", "c-quiescence")
 		cfg := genWriterCfg(r, "")
